@@ -15,6 +15,7 @@ import (
 	"strings"
 
 	"github.com/tsawler/tabula"
+	"github.com/tsawler/tabula/rag"
 	"github.com/tsawler/tabula/reader"
 
 	"github.com/tsawler/tabula/docx"
@@ -33,7 +34,7 @@ import (
 
 var reuseCalls = []string{"Text", "Markdown", "TextX", "MarkdownX", "Document", "TextH", "MarkdownF", "TextSel",
 	// side views of the same parsed state (only where the reader has them): called by reflection, compared as JSON
-	"@Tables", "@ModelTables", "@Lists", "@ModelLists", "@Metadata", "@HeaderTexts", "@FooterTexts", "@Chapters", "@SheetNames"}
+	"@Tables", "@ModelTables", "@Lists", "@ModelLists", "@Metadata", "@HeaderTexts", "@FooterTexts", "@Chapters", "@SheetNames", "@MarkdownWithRAGOptions", "@MarkdownWithRAGOptions#shifted"}
 
 // pdfReuseCalls: one reader.Reader handed to tabula.FromReader again and again
 // (the caller owns it), plus direct page extraction in any page order.
@@ -125,12 +126,27 @@ func callPDF(rd *reader.Reader, call string) string {
 
 // callReflect calls a zero-argument exported method if the reader has it.
 func callReflect(r any, method string) string {
+	variant := ""
+	if i := strings.IndexByte(method, '#'); i >= 0 {
+		method, variant = method[:i], method[i+1:]
+	}
 	m := reflect.ValueOf(r).MethodByName(method)
-	if !m.IsValid() || m.Type().NumIn() != 0 {
+	if !m.IsValid() {
 		return "n/a"
 	}
+	// methods with parameters (MarkdownWithRAGOptions(ExtractOptions, rag.MarkdownOptions) …)
+	// are called with the zero value of each parameter: the default options
+	var args []reflect.Value
+	for i := 0; i < m.Type().NumIn(); i++ {
+		if variant == "shifted" && m.Type().In(i) == reflect.TypeOf(rag.MarkdownOptions{}) {
+			// other heading options than the call before: the rendering follows the options of this call
+			args = append(args, reflect.ValueOf(rag.MarkdownOptions{HeadingLevelOffset: 2, MaxHeadingLevel: 4, IncludeMetadata: true}))
+			continue
+		}
+		args = append(args, reflect.Zero(m.Type().In(i)))
+	}
 	var parts []string
-	for _, v := range m.Call(nil) {
+	for _, v := range m.Call(args) {
 		if e, ok := v.Interface().(error); ok && e != nil {
 			return "ERR: " + e.Error()
 		}
@@ -518,7 +534,7 @@ func readerReuse(c *dctx, docs []docFile, dir string) {
 				}
 				k++
 			}
-			fixed = []string{"Document", "Markdown", "Document", "MarkdownX", "Document", "Text", "TextX", "Document", "Markdown"}
+			fixed = []string{"Document", "Markdown", "Document", "MarkdownX", "@MarkdownWithRAGOptions", "Document", "Text", "@MarkdownWithRAGOptions#shifted", "TextX", "@MarkdownWithRAGOptions", "Document", "Markdown"}
 		}
 		rd, closeFn, err := openReader(d.Kind, d.Path)
 		if err != nil {
